@@ -170,7 +170,7 @@ def run(tier, seed, res):
     """Called from check_C18: runs the product exploration for IPv4 and IPv6 and adds failures to res."""
     from .farm import REPO
     code = ("import sys; sys.path.insert(0, %r); import warnings; warnings.simplefilter('ignore'); "
-            "from pregex.meta.essentials import IPv4, IPv6; import json; "
+            "from pregex.meta.essentials import IPv4, IPv6; import json; IPv4(); IPv6(); "
             "print(json.dumps({'v4': str(IPv4(is_extensible=True)), 'v6': str(IPv6(is_extensible=True))}))") % os.path.join(REPO, 'src')
     out = subprocess.run(['/venv/bin/python', '-c', code], capture_output=True, text=True)
     if out.returncode != 0:
@@ -218,7 +218,7 @@ def run(tier, seed, res):
         if chk.returncode != 0:
             raise MachineryError('witness replay failed: ' + chk.stderr[-800:])
         verdicts = json.loads(chk.stdout.strip().splitlines()[-1])
-        for (w, nfa_acc, rstate), (lib, ipa, refacc) in zip(wit, verdicts):
+        for (w, nfa_acc, rstate), (lib, ipa, refacc, libplain) in zip(wit, verdicts):
             res.agg.stats['cases'] = res.agg.stats.get('cases', 0) + 1
             if lib != nfa_acc:
                 raise MachineryError('extracted automaton disagrees with the library on %r (nfa %s, library %s)' % (w, nfa_acc, lib))
@@ -229,6 +229,12 @@ def run(tier, seed, res):
                                          'term': ('IPv4' if kind == 'v4' else 'IPv6') + '(is_extensible=True)', 'spelling': 'class',
                                          'text': w, 'ipkind': kind,
                                          'detail': {'text': w, 'library_accepts': lib, 'reference_accepts': refacc, 'ipaddress': ipa}})
+            if libplain != refacc:
+                # the non-extensible pattern only adds assertions about the surroundings: on a whole string they are vacuous
+                res.agg.failures.append({'property': 'C18', 'kind': 'ipproduct', 'replay_module': 'ipproduct', 'facet': 'language',
+                                         'term': ('IPv4' if kind == 'v4' else 'IPv6') + '()', 'spelling': 'class',
+                                         'text': w, 'ipkind': kind,
+                                         'detail': {'text': w, 'library_accepts': libplain, 'reference_accepts': refacc, 'ipaddress': ipa}})
         cov['automaton_path'][kind] = 'product explored: %d product states, NFA %d states, %d atoms, %d symbols' % (r['distinct'], n, nat, nrep)
         res.agg.samples.append({'product_witness': wit[len(wit) // 2][0], 'kind': kind})
     return cov
@@ -240,6 +246,7 @@ warnings.simplefilter('ignore')
 sys.path.insert(0, %r)
 kind = %r
 from pregex.meta.essentials import IPv4, IPv6
+q = IPv4() if kind == 'v4' else IPv6()          # the standalone form is built first: the extensible one must not depend on it
 p = IPv4(is_extensible=True) if kind == 'v4' else IPv6(is_extensible=True)
 def ref4(t):
     ps = t.split('.')
@@ -263,7 +270,7 @@ def ref6(t):
     return len(ps) == 8 and all(hexg(x) for x in ps)
 out = []
 for w in json.load(sys.stdin):
-    out.append([p.is_exact_match(w), ipa(w), (ref4 if kind == 'v4' else ref6)(w)])
+    out.append([p.is_exact_match(w), ipa(w), (ref4 if kind == 'v4' else ref6)(w), q.is_exact_match(w)])
 print(json.dumps(out))
 '''
 
@@ -272,7 +279,9 @@ def replay_record(rec):
     from .farm import REPO
     chk = subprocess.run(['/venv/bin/python', '-c', WITNESS_CODE % (os.path.join(REPO, 'src'), rec['ipkind'])],
                          input=json.dumps([rec['text']]), capture_output=True, text=True)
-    lib, ipa, ref = json.loads(chk.stdout.strip().splitlines()[-1])[0]
+    lib, ipa, ref, libplain = json.loads(chk.stdout.strip().splitlines()[-1])[0]
+    if rec.get('term', '').endswith('()'):
+        lib = libplain
     print('text %r: library accepts %s, reference %s, ipaddress %s' % (rec['text'], lib, ref, ipa))
     print('REPRODUCED' if lib != ref else 'not reproduced on the current tree')
     return 1 if lib != ref else 0
